@@ -4,7 +4,7 @@
    finishes") is refuted in the stated configuration class by the known findings (hang with an ordered
    standalone buffer, LIFO deadlock with early transport disabled) and otherwise decided by exploration. *)
 From Coq Require Import List ZArith Bool.
-From JSL Require Import Base.Res Base.ListX SM.Types SM.Util SM.Handler SM.Step SM.Inv SMP.Offers SM.ExampleDeadlock SM.ExampleUnready SM.Events SM.ExampleHang SM.Middleware SMP.Reflect Props.C05 Gen.Kernels Gen.KernelsEq SMP.StepInv SMP.LiftProv SMP.ProvBatch SMP.OffersValid SMP.Clock.
+From JSL Require Import Base.Res Base.ListX SM.Types SM.Util SM.Handler SM.Step SM.Inv SMP.Offers SM.ExampleDeadlock SM.ExampleUnready SM.Events SM.ExampleHang SM.Middleware SMP.Reflect Props.C05 Gen.Kernels Gen.KernelsEq SMP.StepInv SMP.LiftProv SMP.ProvBatch SMP.OffersValid SMP.Clock SMP.EventsRun.
 Import ListNotations.
 
 Theorem C11_ready_only :
@@ -171,3 +171,19 @@ Print Assumptions C11_transportability_is_the_code's.
 Theorem C11_next_operation_free_is_the_code's : forall jb, gen_is_job_next_operation_free jb = is_job_next_operation_free jb.
 Proof. exact gen_is_job_next_operation_free_eq. Qed.
 Print Assumptions C11_next_operation_free_is_the_code's.
+
+(* what IS true of every dispatch of every run of every instance: every IDLE -> WORKING of an AGV in the micro-log of any decision names an
+   unclaimed job, takes exactly travel(where the AGV stands -> where the job lies) to get there, records the route to the machine of the
+   job's next idle operation (or the output buffer) and claims the job - the whole clause ev_dispatch - unless its readiness conjunct
+   (early transport allowed, or the job ready for pickup in that state) is false; that it CAN be false with early transport disabled is
+   C11_dispatch_only_to_ready_jobs_refuted above. chain_events carries this disjunction for every entry, next to the nine event clauses
+   that hold outright (SMP/EventsOk.v apply_ev_dispatch, SMP/EventsRun.v). *)
+Theorem C11_dispatch_clause_holds_up_to_readiness_along_every_run :
+  forall (sigma : oracle) (i : inst) (fuel : nat) (x0 : state) (joker0 : Z) (ta : bool) (r : result) (m : mw)
+         (a : Z) (r' : result) (m' : mw) (lg : mlog),
+    inst_nonneg_b i = true ->
+    clock_b x0 = true -> wfs_b i x0 = true -> fresh2_b i x0 = true -> nodep_b x0 = true -> pre_ok_b x0 = true ->
+    reach sigma i fuel x0 joker0 ta r m -> mw_step sigma i fuel r m a = MOk r' m' lg -> chain_events i (r_x r) lg.
+Proof. intros sigma i fuel x0 joker0 ta r m a r' m' lg Hnn. apply run_events_ok; auto. Qed.
+Print Assumptions C11_dispatch_clause_holds_up_to_readiness_along_every_run.
+
